@@ -45,11 +45,19 @@ fn is_rfc_request(buf: &[u8]) -> bool {
     &buf[0..8] == REQUEST_FRAMING_BYTES
 }
 
+/// Length of the nonce in a classic (Google) request
+const CLASSIC_NONCE_LENGTH: usize = 64;
+
+/// Length of the nonce in an IETF (RFC) request
+const RFC_NONCE_LENGTH: usize = 32;
+
 fn nonce_from_classic_request(buf: &[u8]) -> Result<(Vec<u8>, Version), Error> {
     let msg = RtMessage::from_bytes(buf)?;
     match msg.get_field(Tag::NONC) {
-        Some(nonce) => Ok((nonce.to_vec(), Version::Google)),
-        None => Err(Error::InvalidRequest),
+        // The nonce is echoed in the response; a nonce that is not exactly the length the
+        // protocol prescribes is rejected, otherwise the response could be larger than the request
+        Some(nonce) if nonce.len() == CLASSIC_NONCE_LENGTH => Ok((nonce.to_vec(), Version::Google)),
+        _ => Err(Error::InvalidRequest),
     }
 }
 
@@ -78,8 +86,8 @@ fn nonce_from_rfc_request(buf: &[u8], expected_srv: &[u8]) -> Result<(Vec<u8>, V
     }
 
     match msg.get_field(Tag::NONC) {
-        Some(nonce) => Ok((nonce.to_vec(), version.unwrap())),
-        None => Err(Error::InvalidRequest),
+        Some(nonce) if nonce.len() == RFC_NONCE_LENGTH => Ok((nonce.to_vec(), version.unwrap())),
+        _ => Err(Error::InvalidRequest),
     }
 }
 
